@@ -37,7 +37,9 @@ def run(ctx):
         rule="a class is (built-in, argument class, outcome class): argument class = string class (empty/ascii/multi-byte/combining/"
              "trailing-newline/inner-newline/crlf/bare-cr) x index position relative to the byte/char/line length "
              "(0, <len, len-1, len, len+1, >len+1, huge, mid-code-point) for the views; float class (zero/subnormal/half/integral/"
-             "large/inf/nan, sign); integer sign/boundary; address family and prefix-length class; list length",
+             "large/inf/nan, sign); for to_lowercase/to_uppercase the case-mapping signatures present (upper/lower/titlecase/uncased, expanding, "
+             "utf8len-changing), for trim* the White_Space kind of the first and last char; for StringBuf histories the history shape "
+             "(sequence of push_char/push_string/as_string, handle or alias) x initial contents; integer sign/boundary; address family and prefix-length class; list length",
         search=search,
     )
 
